@@ -48,14 +48,94 @@ def run(chk):
             ok_err = any(all(b2 not in cfg.reachable_from(i) for b2, _ in bps) for i in after)
             chk.ob("C19.wire/error-returned", ok_err, "a layout error is turned into CompileError::Text and returned" if ok_err else
                    "the result of check_layout is not propagated as an error", where(comp, t.get("ln")))
+    evaluated = False
+    if cl and gl:
+        try:
+            evaluated = rule_layout_eval(chk, cl, gl)
+        except Exception as e:            # the model could not be evaluated: the shape rules decide
+            chk.note("layout model not evaluated: %r" % (e,))
     if cl:
-        rule_cover(chk, cl)
-        rule_compare(chk, cl)
-    if gl:
+        rule_cover(chk, cl, structured=not evaluated)
+        if not evaluated:
+            rule_compare(chk, cl)
+    if gl and not evaluated:
         rule_shape(chk, gl)
 
 
-def rule_cover(chk, cl):
+def rule_layout_eval(chk, cl, gl):
+    """check_layout / get_type_layout evaluated on model modules (layoutmodel.py) and compared with the packing rules
+    written independently there: per type and packing mode the (size, align) pair; per buffer element type the verdict
+    (accepted iff the padded sizes agree, the reported sizes are the padded ones, unknown layouts are errors); which
+    object kinds are examined. Returns False when the functions are not readable."""
+    import layoutmodel as LM
+    f = chk.facts
+    m = LM.LayoutModel(f)
+    sc = {n: m.scalar(n) for n in ("Float32", "Int32", "UInt32", "Float16", "Float64")}
+    vec = {(n, k): m.vector(sc[n], k) for n in ("Float32", "Float16", "Float64") for k in (1, 2, 3, 4)}
+    types = dict(("scalar %s" % n, i) for n, i in sc.items())
+    types.update(("%s%d" % (n, k), i) for (n, k), i in vec.items())
+    F3, F2, F1, F4 = vec[("Float32", 3)], vec[("Float32", 2)], sc["Float32"], vec[("Float32", 4)]
+    H2, D2 = vec[("Float16", 2)], vec[("Float64", 2)]
+    structs = {
+        "{float3; float; float3}": m.struct([F3, F1, F3]), "{float2; float}": m.struct([F2, F1]), "{float; float}": m.struct([F1, F1]),
+        "{float4; float}": m.struct([F4, F1]), "{float; float2; float}": m.struct([F1, F2, F1]), "{float3}": m.struct([F3]),
+        "{half2; float}": m.struct([H2, F1]), "{double2; float}": m.struct([D2, F1]), "{float[3]; float2}": m.struct([m.array(F1, 3), F2]),
+        "{uint; const float4}": m.struct([sc["UInt32"], m.modifier(F4)]),
+    }
+    structs["{ {float2; float}; float4 }"] = m.struct([structs["{float2; float}"], F4])
+    structs["{float3[2]; float}"] = m.struct([m.array(F3, 2), F1])
+    types.update(structs)
+    probe = m.layout(F1, "Metal")
+    if probe is not None and probe[0] == "unreadable":
+        return False
+    for mode in ("HlslStructuredBuffer", "Metal"):
+        bad = []
+        for name, i in types.items():
+            got, want = m.layout(i, mode), m.ref(i, mode)
+            if got != want:
+                bad.append((name, got, want))
+        chk.ob("C19.shape/layout/%s" % mode, not bad, "%d types: (size, align) equal the %s packing rules" % (len(types), mode) if not bad else
+               "get_type_layout(%s, %s) = %s, the packing rules give %s (%d of %d types wrong)" % (bad[0][0], mode, bad[0][1], bad[0][2], len(bad), len(types)),
+               where(gl), sample={"mode": mode, "types": len(types), "wrong": len(bad)})
+    unk = {"bool": m.scalar("Bool"), "StructuredBuffer object": m.object("StructuredBuffer", F1)}
+    badu = [n for n, i in unk.items() if m.layout(i, "Metal") is not None or m.layout(i, "HlslStructuredBuffer") is not None]
+    chk.ob("C19.shape/unknown", not badu, "bool and objects have no layout" if not badu else "%s is given a layout" % badu, where(gl))
+    # verdicts
+    bad = []
+    for name, i in structs.items():
+        r = m.check([m.object("StructuredBuffer", i)])
+        a, b = m.ref_total(i, "HlslStructuredBuffer"), m.ref_total(i, "Metal")
+        want = ("Ok",) if a[0] == b[0] else ("Mismatch", a, b)
+        if r != want:
+            bad.append((name, r, want))
+    chk.ob("C19.shape/verdict", not bad, "%d buffer element types: accepted iff the padded HLSL and Metal sizes agree; the reported sizes are the padded ones" % len(structs) if not bad else
+           "check_layout on StructuredBuffer<%s> gives %s, must be %s (%d of %d element types): layouts that differ are accepted, or a wrong size is reported"
+           % (bad[0][0], bad[0][1], bad[0][2], len(bad), len(structs)), where(cl), sample={"types": len(structs), "wrong": len(bad)})
+    for k_ in ("round-to-align", "round-own-align", "mismatch-iff-differs", "modes"):
+        chk.ob("C19.shape/" + k_, not bad, "decided by the evaluated verdicts" if not bad else "see C19.shape/verdict", where(cl), trivial=True)
+    r = m.check([m.object("StructuredBuffer", m.struct([m.scalar("Bool")]))])
+    chk.ob("C19.shape/unknown-is-error", r == ("Err", "UnknownLayout"), "an element type without a layout is an error" if r == ("Err", "UnknownLayout") else
+           "a buffer element type without a known layout gives %s, must be Err(UnknownLayout)" % (r,), where(cl))
+    # which object kinds are examined
+    mism = structs["{float3}"]
+    objs = f.adt("ir_types::ObjectType", "rssl_ir")
+    examined = set()
+    for v in (objs or {}).get("variants", []):
+        if len(v["fields"]) == 1 and "TypeId" in (v["fields"][0].get("ty") or ""):
+            r = m.check([m.object(v["name"], mism)])
+            if r[0] in ("Mismatch", "Err"):
+                examined.add(v["name"])
+    ok = examined == {"StructuredBuffer", "RWStructuredBuffer"}
+    chk.ob("C19.cover/structured-buffers", ok, "element types of StructuredBuffer / RWStructuredBuffer globals are validated" if ok else
+           "check_layout examines the element types of %s globals (must be exactly StructuredBuffer and RWStructuredBuffer)" % sorted(examined), where(cl))
+    # two globals: the first mismatch is reported, an accepted one does not hide a later mismatch
+    r = m.check([m.object("StructuredBuffer", structs["{float; float}"]), m.object("RWStructuredBuffer", mism)])
+    chk.ob("C19.cover/every-global", r[0] == "Mismatch", "every structured buffer global is examined" if r[0] == "Mismatch" else
+           "a mismatching buffer declared after an accepted one is not reported (%s)" % (r,), where(cl))
+    return True
+
+
+def rule_cover(chk, cl, structured=True):
     f = chk.facts
     listed = set()
     for m in F.exprs(cl["thir"], "Match"):
@@ -88,6 +168,8 @@ def rule_cover(chk, cl):
         chk.ob("C19.cover/%s" % v, ok, "typed raw-buffer access is validated" if ok else
                ("intrinsic_data declares Intrinsic::%s as a templated typed load/store on a buffer object but check_layout does not examine its element type" % v if v in want else
                 "check_layout lists Intrinsic::%s, which is not a typed raw-buffer load/store" % v), where(cl), sample={"intrinsic": v})
+    if not structured:
+        return
     # structured buffers from globals
     sb = set()
     for m in F.find_matches(cl, "ObjectType"):
